@@ -200,3 +200,216 @@ example : containsL .String [sNum (.fin 3 1) false, sNum (.fin 2 0) false] = tru
   constructor <;> rfl
 
 end V.PyProps
+
+namespace V.PyProps
+open V V.Gen V.Py
+
+/-! ### C09 for the list back end's relation tests: where can a test raise? -/
+
+/-- every element conversion either returns or raises a class that the test applying it catches (the catch lists are
+those of the code, mirrored in `VModel/PyList.lean` and pinned by `Shapes.shapes_match`); executable -/
+def convCaughtL (s : Seq) : Bool :=
+  let c3 := caught ["ValueError", "TypeError", "AttributeError"]
+  s.all (fun x =>
+    (match x.lowerTF with | .raises _ => x.isNone | _ => true) &&
+    (match x.flo with | .raises c => caught ["ValueError", "TypeError"] c | _ => true) &&
+    (match x.firstZero with | .raises c => caught ["ValueError", "TypeError"] c | _ => true) &&
+    (match x.cplx with | .raises c => c3 c | _ => true) &&
+    (match x.strp with | .raises c => caught ["OverflowError", "TypeError", "ValueError"] c | _ => true) &&
+    (match x.url with | .raises c => c3 c | _ => true) &&
+    (match x.uuid with | .raises c => c3 c | _ => true) &&
+    (match x.ip with | .raises c => c3 c | _ => true) &&
+    (match x.email with | .raises c => c3 c | _ => true) &&
+    (match x.wkt with | .raises c => caught ["WKTReadingError", "GEOSException", "AttributeError", "UnicodeEncodeError", "TypeError"] c | _ => true) &&
+    (match x.winAbs with | .raises c => caught ["TypeError"] c | _ => true) &&
+    (match x.posixAbs with | .raises c => caught ["TypeError"] c | _ => true) &&
+    (match x.midnight with | .raises c => c3 c | _ => true) &&
+    (x.cval.isSome || !x.isComplex) &&
+    (match intEq x with | .raises c => caught ["ValueError", "TypeError", "OverflowError"] c | _ => true))
+
+theorem firstRaise_some_mem {α : Type} {l : List (Outcome α)} {c : String} (h : firstRaise l = some c) : Outcome.raises c ∈ l := by
+  induction l with
+  | nil => simp [firstRaise] at h
+  | cons z zs ih =>
+    cases z with
+    | raises d => simp only [firstRaise, Option.some.injEq] at h; subst h; exact List.mem_cons_self
+    | ok v => simp only [firstRaise] at h; exact List.mem_cons_of_mem _ (ih h)
+
+theorem tryB_total (names : List String) (o : Outcome Bool) (h : ∀ c, o = .raises c → caught names c = true) :
+    ∃ b, tryB names o = .ok b := by
+  cases o with
+  | ok b => exact ⟨b, rfl⟩
+  | raises c => exact ⟨false, by simp [tryB, h c rfl]⟩
+
+theorem allO_raises {l : List (Outcome Bool)} {c : String} (h : allO l = .raises c) : Outcome.raises c ∈ l := by
+  induction l with
+  | nil => simp [allO] at h
+  | cons z zs ih =>
+    cases z with
+    | raises d => simp only [allO, Outcome.raises.injEq] at h; subst h; exact List.mem_cons_self
+    | ok b => cases b with
+      | false => simp [allO] at h
+      | true => simp only [allO] at h; exact List.mem_cons_of_mem _ (ih h)
+
+/-- a "parse everything, catch the listed classes" test is total when every raised class is caught -/
+theorem parses_total {α : Type} (names : List String) (f : Elem → Outcome α) (s : Seq)
+    (h : ∀ x ∈ s, ∀ c, f x = .raises c → caught names c = true) : ∃ b, parses names f s = .ok b := by
+  simp only [parses]
+  cases hfr : firstRaise (s.map f) with
+  | none => exact ⟨true, rfl⟩
+  | some c =>
+    obtain ⟨x, hx, hxe⟩ := List.mem_map.mp (firstRaise_some_mem hfr)
+    exact ⟨false, by simp [h x hx c hxe]⟩
+
+theorem allAfterParse_total (names : List String) (f : Elem → Outcome Bool) (s : Seq)
+    (h : ∀ x ∈ s, ∀ c, f x = .raises c → caught names c = true) : ∃ b, allAfterParse names f s = .ok b := by
+  simp only [allAfterParse]
+  cases hfr : firstRaise (s.map f) with
+  | none => exact ⟨_, rfl⟩
+  | some c =>
+    obtain ⟨x, hx, hxe⟩ := List.mem_map.mp (firstRaise_some_mem hfr)
+    exact ⟨false, by simp [h x hx c hxe]⟩
+
+theorem caught_mono {a b : List String} (h : ∀ n ∈ a, n ∈ b) {c : String} (hc : caught a c = true) : caught b c = true := by
+  simp only [caught, List.any_eq_true] at hc ⊢
+  obtain ⟨n, hn, hcn⟩ := hc
+  exact ⟨n, h n hn, hcn⟩
+
+theorem noLeadingZeros_raises {s : Seq} {vals : List FloatV} {c : String} (h : noLeadingZeros s vals = .raises c) :
+    ∃ x ∈ s, x.firstZero = .raises c := by
+  unfold noLeadingZeros at h
+  split at h
+  · cases h
+  · rename_i d ha
+    simp only [Outcome.raises.injEq] at h
+    subst h
+    obtain ⟨⟨x, v⟩, hxv, hxe⟩ := List.mem_map.mp (allO_raises ha)
+    refine ⟨x, (List.of_mem_zip hxv).1, ?_⟩
+    simp only at hxe
+    split at hxe
+    · rename_i e he; simp only [Outcome.raises.injEq] at hxe; rw [← hxe]; exact he
+    · cases hxe
+
+/-- **C09 for the list back end's relation tests**: every one of the 14 tests answers (never raises) on every sequence of
+its source type whose element conversions raise caught classes only (`convCaughtL`, executable) -/
+theorem C09_tests_total_list (src dst : Ty) (g : Seq → R Bool) (hg : guardL src dst = some g) (s : Seq)
+    (hc : containsL src s = true) (h : convCaughtL s = true) : ∃ b, g s = .ok b := by
+  simp only [convCaughtL, List.all_eq_true, Bool.and_eq_true] at h
+  have c3of2 : ∀ c, caught ["ValueError", "TypeError"] c = true → caught ["ValueError", "TypeError", "AttributeError"] c = true :=
+    fun c hc => caught_mono (by intro n hn; simp at hn ⊢; rcases hn with rfl | rfl <;> simp) hc
+  cases src <;> cases dst <;> simp only [guardL, Option.some.injEq, reduceCtorEq] at hg <;> subst hg
+  · -- String -> Boolean
+    simp only [stringIsBool]
+    cases ha : allO ((dropNone s).map (fun x => match x.lowerTF with | .ok o => Outcome.ok o.isSome | .raises c => .raises c)) with
+    | ok b => exact ⟨b, rfl⟩
+    | raises c =>
+      obtain ⟨x, hx, hxe⟩ := List.mem_map.mp (allO_raises ha)
+      have hxs := List.mem_filter.mp hx
+      have hl := (h x hxs.1).1.1.1.1.1.1.1.1.1.1.1.1.1.1
+      cases hlo : x.lowerTF with
+      | ok o => simp [hlo] at hxe
+      | raises d =>
+        simp only [hlo] at hl
+        have := hxs.2
+        simp [hl] at this
+  · -- String -> Complex
+    simp only [stringIsComplex]
+    cases hfr : firstRaise (s.map (·.cplx)) with
+    | some c =>
+      obtain ⟨x, hx, hxe⟩ := List.mem_map.mp (firstRaise_some_mem hfr)
+      have := (h x hx).1.1.1.1.1.1.1.1.1.1.1.2
+      simp only [hxe] at this
+      exact ⟨false, by simp [this]⟩
+    | none =>
+      simp only []
+      apply tryB_total
+      intro c hcr
+      obtain ⟨x, hx, hxe⟩ := noLeadingZeros_raises hcr
+      have := (h x hx).1.1.1.1.1.1.1.1.1.1.1.1.2
+      simp only [hxe] at this
+      exact c3of2 c this
+  · -- String -> DateTime
+    exact parses_total _ _ s (fun x hx c hxe => by have := (h x hx).1.1.1.1.1.1.1.1.1.1.2; simpa [hxe] using this)
+  · -- String -> Float
+    simp only [stringIsFloat]
+    cases hfr : firstRaise (s.map (·.flo)) with
+    | some c =>
+      obtain ⟨x, hx, hxe⟩ := List.mem_map.mp (firstRaise_some_mem hfr)
+      have := (h x hx).1.1.1.1.1.1.1.1.1.1.1.1.1.2
+      simp only [hxe] at this
+      exact ⟨false, by simp [this]⟩
+    | none =>
+      simp only []
+      apply tryB_total
+      intro c hcr
+      obtain ⟨x, hx, hxe⟩ := noLeadingZeros_raises hcr
+      have := (h x hx).1.1.1.1.1.1.1.1.1.1.1.1.2
+      simpa [hxe] using this
+  · -- String -> Geometry
+    simp only [stringIsGeometry]
+    apply tryB_total
+    intro c hcr
+    obtain ⟨x, hx, hxe⟩ := List.mem_map.mp (allO_raises hcr)
+    have := (h x hx).1.1.1.1.1.2
+    simpa [hxe] using this
+  · -- String -> IPAddress
+    exact parses_total _ _ s (fun x hx c hxe => by have := (h x hx).1.1.1.1.1.1.1.2; simpa [hxe] using this)
+  · -- String -> Path
+    simp only [stringIsPath, usesWindows]
+    cases hfr : firstRaise (s.map (·.winAbs)) with
+    | some c =>
+      obtain ⟨x, hx, hxe⟩ := List.mem_map.mp (firstRaise_some_mem hfr)
+      have := (h x hx).1.1.1.1.2
+      simp only [hxe] at this
+      exact ⟨false, by simp [this]⟩
+    | none =>
+      simp only []
+      cases hall : (oks (s.map (·.winAbs))).all id with
+      | true => exact ⟨true, rfl⟩
+      | false =>
+        simp only []
+        cases hfp : firstRaise (s.map (·.posixAbs)) with
+        | some c =>
+          obtain ⟨x, hx, hxe⟩ := List.mem_map.mp (firstRaise_some_mem hfp)
+          have := (h x hx).1.1.1.2
+          simp only [hxe] at this
+          exact ⟨false, by simp [this]⟩
+        | none => exact ⟨_, rfl⟩
+  · -- String -> UUID
+    exact parses_total _ _ s (fun x hx c hxe => by have := (h x hx).1.1.1.1.1.1.1.1.2; simpa [hxe] using this)
+  · -- String -> URL
+    exact allAfterParse_total _ _ s (fun x hx c hxe => by have := (h x hx).1.1.1.1.1.1.1.1.1.2; simpa [hxe] using this)
+  · -- String -> EmailAddress
+    exact allAfterParse_total _ _ s (fun x hx c hxe => by have := (h x hx).1.1.1.1.1.1.2; simpa [hxe] using this)
+  · -- Complex -> Float: every element of a Complex sequence has a value
+    simp only [complexIsFloat]
+    apply tryB_total
+    intro c hcr
+    obtain ⟨x, hx, hxe⟩ := List.mem_map.mp (allO_raises hcr)
+    have hcv := (h x hx).1.2
+    have hcx : x.isComplex = true := by
+      simp only [containsL] at hc
+      have := (notEmpty_true hc).2
+      exact List.all_eq_true.mp this x hx
+    simp only [hcx, Bool.not_true, Bool.or_false] at hcv
+    cases hv : x.cval with
+    | none => simp [hv] at hcv
+    | some p => obtain ⟨re, im⟩ := p; simp [hv] at hxe
+  · -- DateTime -> Date
+    simp only [datetimeIsDate]
+    apply tryB_total
+    intro c hcr
+    obtain ⟨x, hx, hxe⟩ := List.mem_map.mp (allO_raises hcr)
+    have := (h x hx).1.1.2
+    simpa [hxe] using this
+  · -- Float -> Integer
+    simp only [floatIsInt]
+    apply tryB_total
+    intro c hcr
+    obtain ⟨x, hx, hxe⟩ := List.mem_map.mp (allO_raises hcr)
+    have := (h x hx).2
+    simpa [hxe] using this
+  · -- Object -> Boolean
+    exact ⟨_, rfl⟩
+
+end V.PyProps
